@@ -6,7 +6,7 @@ MISS=0
 for d in seeded/*/; do
   n=$(basename $d)
   p=$(python3 -c "import json,sys;print(json.load(open('$d/meta.json'))['property'][:3])")
-  out=$(./tools/seed_run_iso.sh $n $p 2>&1 | head -1)
+  out=$(SEED_FROM_HEAD=1 ./tools/seed_run_iso.sh $n $p 2>&1 | head -1)
   echo "$out"
   case "$out" in *"exit=1"*) ;; *) MISS=1;; esac
 done
